@@ -123,7 +123,7 @@ def run(R):
         R.check(len(sz) == 1 and any(show(tm).startswith('discr(') and vals == [sadt['Yes']] for s, vals, tm in rh.edge_guards(sz[0][0])), 'C08.R2', 'sanitised-on-Yes', site(rh), 'into_sanitized_headers on the Yes arm')
         no_sites, yes_sites = [], []
         for bd, bb, t in call_sites_in_crate(tonic, pat='Request::<T>::into_http'):
-            a = strip_refs(bd.origin(t['args'][4]))
+            a = strip_refs(bd.origin(t['args'][-1]))
             v = a[1].get('variant') if a[0] == 'agg' else show(a)
             (no_sites if v == 'No' else yes_sites).append((short(bd.path), v))
         R.eq(sorted(set(p for p, v in no_sites)), ['<service::interceptor::InterceptedService<S, I> as tower_service::Service<http::Request<ReqBody>>>::call'], 'C08.R2', 'No-passed-only-by-interceptor', '', 'call sites passing SanitizeHeaders::No')
